@@ -134,6 +134,115 @@ def marshal (v : VLA) : MRes :=
       enc.flatten ++ (if v.hasRes then v.layers.flatMap resBytes else []))
     fit (requiredLen v common enc) body
 
+/-! ### Marshal, literally: index writes into `payload := make([]byte, requiredLen)`
+
+`marshal` above abstracts the encoder's writes as "append the sections, then `fit`".  `marshalGo`
+follows the Go statements one by one: every `payload[i] = x`, `payload[i] |= x`,
+`copy(payload[offset:], b)` and `PutUint16(payload[offset:], x)` is an operation on the buffer that
+panics exactly where Go would (index or slice bound out of range; `copy` itself truncates
+silently).  `marshalGo_eq_marshal` (Rtp/Proofs/VLABuf.lean) proves the two equal on every input, so
+the abstraction is a theorem, not an assumption; the driver compares the real code with
+`marshalGo`. -/
+
+/-- `payload[i] = x` -/
+def setAt (buf : Bytes) (i : Nat) (x : UInt8) : Option Bytes :=
+  if i < buf.length then some (buf.set i x) else none
+
+/-- `payload[i] |= x` -/
+def orAt (buf : Bytes) (i : Nat) (x : UInt8) : Option Bytes :=
+  if i < buf.length then some (buf.set i (buf.getD i 0 ||| x)) else none
+
+/-- `copy(payload[off:], src)`: slicing panics when `off > len`; `copy` writes `min` bytes -/
+def copyAt (buf : Bytes) (off : Nat) (src : Bytes) : Option Bytes :=
+  if off ≤ buf.length then some (writeAt buf off src) else none
+
+/-- `binary.BigEndian.PutUint16(payload[off:], x)`: needs two bytes -/
+def put16At (buf : Bytes) (off : Nat) (x : UInt16) : Option Bytes :=
+  if off + 2 ≤ buf.length then some ((buf.set off (x >>> 8).toUInt8).set (off + 1) x.toUInt8) else none
+
+/-- `for streamID := …; streamID < count { payload[offset+streamID/2] |= … }` -/
+def writeMasks (buf : Bytes) (off : Nat) : List UInt8 → Nat → Option Bytes
+  | [], _ => some buf
+  | m :: ms, sid =>
+    match orAt buf (off + sid / 2) (if sid % 2 == 0 then m <<< 4 else m) with
+    | none => none
+    | some buf' => writeMasks buf' off ms (sid + 1)
+
+/-- the #tl loop on the buffer; returns the buffer and the final `offset` -/
+def writeTl (buf : Bytes) : List Layer → Nat → Nat → Option (Bytes × Nat)
+  | [], _, off => some (buf, off)
+  | l :: rest, idx, off =>
+    let n := byteOfInt ((l.rates.length : Int) - 1)
+    if idx ≥ 4 then
+      match orAt buf (off + 1) (n <<< (2 * (3 - 0) : Nat).toUInt8) with
+      | none => none
+      | some buf' => writeTl buf' rest 1 (off + 1)
+    else
+      match orAt buf off (n <<< (2 * (3 - idx) : Nat).toUInt8) with
+      | none => none
+      | some buf' => writeTl buf' rest (idx + 1) off
+
+/-- `for _, encodedKbps := range … { copy(payload[offset:], encodedKbps); offset += len }` -/
+def writeRates (buf : Bytes) : List Bytes → Nat → Option (Bytes × Nat)
+  | [], off => some (buf, off)
+  | e :: es, off =>
+    match copyAt buf off e with
+    | none => none
+    | some buf' => writeRates buf' es (off + e.length)
+
+/-- the resolution records -/
+def writeRes (buf : Bytes) : List Layer → Nat → Option Bytes
+  | [], _ => some buf
+  | l :: rest, off =>
+    match put16At buf off (u16OfInt (l.width - 1)) with
+    | none => none
+    | some b1 =>
+      match put16At b1 (off + 2) (u16OfInt (l.height - 1)) with
+      | none => none
+      | some b2 =>
+        match setAt b2 (off + 4) (byteOfInt l.fps) with
+        | none => none
+        | some b3 => writeRes b3 rest (off + 5)
+
+/-- the statements of Marshal from `// #tl fields` on (`off` = the offset before its `offset++`) -/
+def fillTail (v : VLA) (tbl : List Layer) (enc : List Bytes) (buf : Bytes) (off : Nat) : Option Bytes :=
+  match writeTl buf tbl 0 (off + 1) with
+  | none => none
+  | some (buf, off) =>
+    match writeRates buf enc (off + 1) with
+    | none => none
+    | some (buf, off) => if v.hasRes then writeRes buf v.layers off else some buf
+
+/-- the statements of Marshal after `payload := make([]byte, ctx.requiredLen)` -/
+def fillPayload (v : VLA) (masks : List UInt8) (common : UInt8) (tbl : List Layer) (enc : List Bytes)
+    (n : Nat) : Option Bytes :=
+  let b0 := byteOfInt (v.rid * 64) ||| (byteOfInt (v.count - 1) <<< 4) ||| common
+  match setAt (List.replicate n 0) 0 b0 with
+  | none => none
+  | some buf =>
+    -- offset = 0
+    if common == 0 then
+      match writeMasks buf 1 masks 0 with
+      | none => none
+      | some buf' => fillTail v tbl enc buf' (1 + (v.count.toNat - 1) / 2)
+    else fillTail v tbl enc buf 0
+
+/-- VLA.Marshal, statement by statement -/
+def marshalGo (v : VLA) : MRes :=
+  if v.count ≤ 0 || v.count > 4 then .err .streamCount
+  else if v.rid < 0 || v.rid ≥ v.count then .err .streamID
+  else match preprocess v.count v.layers [] with
+  | some e => .err e
+  | none =>
+    let count := v.count.toNat
+    let masks := (List.range count).map (slMB v.layers)
+    let common := commonSLBM masks
+    let tbl := tableOrder count v.layers
+    let enc := encodedRates tbl
+    match fillPayload v masks common tbl enc (requiredLen v common enc) with
+    | some b => .ok b
+    | none => .panic
+
 /-! ### Unmarshal -/
 
 /-- `payload[i]` where the model has already established `i < len` -/
